@@ -1,5 +1,59 @@
 (* C19 — a reported immediate road threat for the side to move is a real winning move.
-   Only statements, `exact`, and Print Assumptions live here. *)
+   Only statements, `exact`, and Print Assumptions live here.
+   Model: Eval.count_threats (transcription of ai.CountThreats), named piece by piece in Threats.v.
+   Proofs: ThreatsFacts1.v (count_one = sum over the groups of popcount(pmap), popcount(tmap)),
+           ThreatsFacts2.v (adding a square that joins two edge-touching connected parts creates a spanning group),
+           ThreatsFacts3.v (every set bit of a group's placement map pmap is such a square),
+           ThreatsFacts4.v (the placement is legal by the placement branch of MovePreallocated; the successor's road bits).
+   `inv p` is C02's invariant (C01's representation invariant, no stray bits, reserves within a byte);
+   `mv` is the bit-level model of MovePreallocated (repaired code), `win_details` the model of WinDetails.
+
+   FULL STATEMENT (DESIGN 5.19), not yet proved in full:
+     Theorem threats_sound : forall p wp wt bp bt, inv p -> 2 <= move p -> threats p = Some (wp, wt, bp, bt) ->
+       (to_move_white p = true  -> 0 < wp + wt -> mover has a stone or capstone -> exists m p', mv p m = Ok p' /\ road_win p' GWhite) /\
+       (to_move_white p = false -> 0 < bp + bt -> ...                           -> exists m p', mv p m = Ok p' /\ road_win p' GBlack).
+   PROVED: the placement half (counts wp / bp, the `pmap` of countOne) = C19_threats_sound_partial below.
+   MISSING: the one-step-slide half (counts wt / bp's companion bt, the `tmap`): a set bit of tmap is a square that is not a
+   wall/capstone and is adjacent to a flat of the mover outside the group(s); it needs the slide branch of move_prealloc for a
+   one-piece slide (C01's slide_refines gives legality; the successor's road bits lose the origin only if the origin was a
+   one-high stack or uncovers an opponent piece).  That half is covered by the check's one-ply search oracle only. *)
 From Coq Require Import NArith ZArith List Bool.
-Require Import Board Move GameOver Eval EvalSpec.
+Require Import Board Move GameOver Refine GameOverFacts2 GameOverFacts5 Eval EvalSpec Threats ThreatsFacts1 ThreatsFacts3 ThreatsFacts4.
 Import ListNotations.
+
+(* CountThreats' closure is the sum, over the groups in order, of the popcounts of that group's two maps. *)
+Theorem C19_count_one_eq : forall c p gs pieces, count_one c p gs pieces = tsum (tcount c p gs pieces) 0 gs (0, 0)%Z.
+Proof. exact count_one_eq. Qed.
+Print Assumptions C19_count_one_eq.
+
+(* Every set bit of the placement map of the k-th group (B = the mover's road squares, gs = FloodGroups of B, pieces = the
+   mover's flats) is an on-board empty square i such that FloodGroups of B + {i} contains a group spanning the board. *)
+Theorem C19_pmap_sound : forall s, (3 <= s <= 8)%N -> forall p B, (forall i, N.testbit B i = true -> (i < s * s)%N) ->
+  forall gs, groups (precompute s) B = Some gs ->
+  forall pieces, (forall i, N.testbit pieces i = true -> N.testbit B i = true) ->
+  (forall i, N.testbit (t_empty (precompute s) p) i = true -> N.testbit B i = false /\ (i < s * s)%N) ->
+  forall k g, nth_error gs k = Some g ->
+  forall i, N.testbit (fst (tmaps (precompute s) p gs pieces k g)) i = true ->
+    (i < s * s)%N /\ N.testbit (t_empty (precompute s) p) i = true /\ N.testbit B i = false /\
+    exists gs', groups (precompute s) (N.lor B (Conn.bit1 i)) = Some gs' /\ existsb (spans (precompute s)) gs' = true.
+Proof. exact pmap_sound. Qed.
+Print Assumptions C19_pmap_sound.
+
+(* The placement half of threats_sound. *)
+Theorem C19_threats_sound_partial : forall p wp wtt bp btt, inv p -> (2 <= move p)%Z -> threats p = Some (wp, wtt, bp, btt) ->
+  (to_move_white p = true -> (0 < wp)%Z -> (0 < whiteStones p \/ 0 < whiteCaps p)%N ->
+     exists m p', mv p m = Ok p' /\ road_win p' GWhite) /\
+  (to_move_white p = false -> (0 < bp)%Z -> (0 < blackStones p \/ 0 < blackCaps p)%N ->
+     exists m p', mv p m = Ok p' /\ road_win p' GBlack).
+Proof. exact threats_place_sound. Qed.
+Print Assumptions C19_threats_sound_partial.
+
+(* Non-vacuity: a reachable 3x3 position (4 plies) satisfying the invariant, White to move, wp = 1; the winning placement. *)
+Theorem C19_nonvacuous :
+  invb ex_threat = true /\ move ex_threat = 4%Z /\ to_move_white ex_threat = true /\
+  threats ex_threat = Some (1, 0, 1, 0)%Z /\ whiteStones ex_threat = 8%N /\
+  game_over ex_threat = Some (false, GNone) /\
+  match mv ex_threat (ThreatsFacts4.M 2 2 0 0)%Z%N with Ok q => win_details q | _ => None end =
+    Some {| wd_over := true; wd_road := true; wd_winner := GWhite; wd_wflats := 3; wd_bflats := 2 |}.
+Proof. exact threats_place_nonvacuous. Qed.
+Print Assumptions C19_nonvacuous.
